@@ -570,6 +570,10 @@ func TestVerifC15(t *testing.T) {
 			encs = append(encs, enc{append([]byte{4}, append(ref.B32(new(big.Int).Add(P.X, ref.SM2P)), ref.B32(P.Y)...)...), "x+p-anywhere"})
 		}
 	}
+	// off-curve points whose curve-equation defect sits in one limb / one byte of the plain or internal representation
+	for _, np := range ref.NearCurvePoints(rng.Bytes, hk.N(2, 10)) {
+		encs = append(encs, enc{append([]byte{4}, append(ref.B32(np.X), ref.B32(np.Y)...)...), "off-curve:" + np.Class})
+	}
 	encs = append(encs, enc{append([]byte{4}, append(ref.B32(ref.SM2P), ref.B32(G.Y)...)...), "x=p"},
 		enc{append([]byte{4}, make([]byte, 64)...), "(0,0)"}, enc{append([]byte{4}, bytes.Repeat([]byte{0xff}, 64)...), "all-ff"}, enc{nil, "nil"})
 	for i := 0; i < hk.N(300, 5000); i++ {
